@@ -68,6 +68,7 @@ type Frame struct {
 	curLoopHead *ssa.BasicBlock
 	postMode bool
 	nameFrame *Frame
+	lastPartial map[*Cell]map[int]bool
 }
 
 type retInfo struct {
@@ -540,6 +541,7 @@ func (fr *Frame) enterLoop(li *loopInfo, live []edgeIn, cond string, cur *State)
 			cells[c] = true
 		}
 	}
+	partial := fr.lastPartial
 	if li.rng != nil {
 		if li.rng.Visited != nil {
 			cells[li.rng.Visited] = true
@@ -554,7 +556,7 @@ func (fr *Frame) enterLoop(li *loopInfo, live []edgeIn, cond string, cur *State)
 	}
 	sort.Slice(cl, func(i, j int) bool { return cl[i].id < cl[j].id })
 	for _, c := range cl {
-		cur.cells[c] = vc.fresh("hv_"+c.Name, vc.cellSort(c))
+		fr.havocCell(cur, c, partial[c])
 	}
 	for _, phi := range phis {
 		old := fr.env[phi]
@@ -695,7 +697,32 @@ func (fr *Frame) backEdge(from, h *ssa.BasicBlock, cond string, st *State) {
 	}
 }
 
-// writtenCells computes the cells possibly written by the given blocks.
+// havocCell replaces the content of c by an arbitrary value; if only some top-level
+// struct fields of c can have been written, the other fields keep their value.
+func (fr *Frame) havocCell(st *State, c *Cell, fields map[int]bool) {
+	vc := fr.vc
+	if c.T != nil && fields != nil && !fields[-1] {
+		if stt := structOf(c.T); stt != nil {
+			cur, ok := st.cells[c]
+			if ok {
+				cur = vc.define("pre_"+c.Name, vc.cellSort(c), cur)
+				for i := 0; i < stt.NumFields(); i++ {
+					if fields[i] {
+						ft := stt.Field(i).Type()
+						cur = vc.writePath(cur, []Step{{Kind: StepField, T: c.T, Field: i}}, vc.fresh("hv_"+c.Name+"_"+stt.Field(i).Name(), vc.S.Sort(ft)))
+					}
+				}
+				st.cells[c] = cur
+				return
+			}
+		}
+	}
+	st.cells[c] = vc.fresh("hv_"+c.Name, vc.cellSort(c))
+}
+
+// writtenCells computes the cells possibly written by the given blocks. As a side
+// result fr.lastPartial records, per cell, which top-level fields are written
+// (-1 = the whole cell).
 func (fr *Frame) writtenCells(blocks map[*ssa.BasicBlock]bool) (map[*Cell]bool, bool) {
 	out := map[*Cell]bool{}
 	all := false
@@ -703,8 +730,36 @@ func (fr *Frame) writtenCells(blocks map[*ssa.BasicBlock]bool) (map[*Cell]bool, 
 	for b := range blocks {
 		bl = append(bl, b)
 	}
+	fr.lastPartial = map[*Cell]map[int]bool{}
 	fr.collectWrites(bl, fr.env, nil, out, &all, 0)
 	return out, all
+}
+
+// firstField returns the top-level field through which addr reaches into its root, or -1.
+func firstField(addr ssa.Value) int {
+	field := -1
+	for d := 0; d < 20; d++ {
+		switch x := addr.(type) {
+		case *ssa.FieldAddr:
+			field = x.Field
+			switch x.X.(type) {
+			case *ssa.Parameter, *ssa.Alloc, *ssa.FreeVar, *ssa.Global:
+				return field
+			}
+			addr = x.X
+		case *ssa.IndexAddr:
+			addr = x.X
+		case *ssa.UnOp:
+			addr = x.X
+		case *ssa.Slice:
+			addr = x.X
+		case *ssa.ChangeType:
+			addr = x.X
+		default:
+			return -1
+		}
+	}
+	return -1
 }
 
 // rootsOf walks an address/reference expression back to its root values.
@@ -749,6 +804,19 @@ func (fr *Frame) collectWrites(blocks []*ssa.BasicBlock, env map[ssa.Value]Val, 
 	mark := func(v ssa.Value) {
 		var roots []ssa.Value
 		rootsOf(v, &roots, 0)
+		ff := firstField(v)
+		if len(roots) != 1 || depth > 0 {
+			ff = -1
+		}
+		note := func(c *Cell) {
+			if fr.lastPartial == nil {
+				fr.lastPartial = map[*Cell]map[int]bool{}
+			}
+			if fr.lastPartial[c] == nil {
+				fr.lastPartial[c] = map[int]bool{}
+			}
+			fr.lastPartial[c][ff] = true
+		}
 		for _, r := range roots {
 			var val Val
 			var ok bool
@@ -764,12 +832,22 @@ func (fr *Frame) collectWrites(blocks []*ssa.BasicBlock, env map[ssa.Value]Val, 
 			}
 			if val.Loc != nil {
 				out[val.Loc.Cell] = true
+				if len(val.Loc.Path) == 0 {
+					note(val.Loc.Cell)
+				} else {
+					ff = -1
+					note(val.Loc.Cell)
+				}
 			}
 			if val.Obj != nil {
 				out[val.Obj] = true
+				ff = -1
+				note(val.Obj)
 			}
 			if val.Home != nil {
 				out[val.Home.Cell] = true
+				ff = -1
+				note(val.Home.Cell)
 			}
 		}
 	}
